@@ -303,3 +303,29 @@ def run(repo: Repo, rep: Report, tier: str) -> None:
     # ---------------- R11 --------------------------------------------------------------
     _borrow15(repo, rep, "C16", "C16-R6", "C15-R11", "a function body is analysed once and lowered once per call: the analyzer may rewrite the shared syntax tree only by functions of "
               "the syntax itself, never by what a name is bound to at analysis time (a parameter's placeholder type is the same for every call site)", floor=1)
+
+    # ---------------- R12 --------------------------------------------------------------
+    rep.rule("C15-R12", "parameters go out of scope with the call: every name bound in the lowerer's parameter table for the call (`param_values.update(<bindings>)`) is, after the "
+             "body, either given back its previous value or removed — by a full snapshot assignment, or by a loop over the bound names that restores or pops each one; "
+             "a parameter that stays bound shadows a same-named variable of the code that follows")
+    bind12 = [c for c in calls_in(inl.node, "update") if norm(c.func.value) == "self.parent.param_values"]
+    if not bind12:
+        raise AnalysisError("C15-R12: the parameter binding (`self.parent.param_values.update(...)`) was not found")
+    bound_names = {ci.text(c.args[0]) for c in bind12 if c.args}
+    snap12 = [n for n in walk_local(inl.node) if isinstance(n, ast.Assign) and norm(n.targets[0]) == "self.parent.param_values"
+              and all(a in ("self.parent.param_values.copy()", "dict(self.parent.param_values)") for a in ci.alts(n.value))]
+    loops12 = []
+    for n in walk_local(inl.node):
+        if isinstance(n, ast.For) and ci.text(n.iter) in bound_names | {b + ".keys()" for b in bound_names} | {b + ".items()" for b in bound_names}:
+            pops = any(isinstance(x, ast.Call) and call_name(x) == "pop" and norm(x.func.value) == "self.parent.param_values" for x in ast.walk(n)) or any(
+                isinstance(x, ast.Delete) and any("self.parent.param_values[" in norm(t) for t in x.targets) for x in ast.walk(n))
+            restores = any(isinstance(x, ast.Assign) and isinstance(x.targets[0], ast.Subscript) and norm(x.targets[0].value) == "self.parent.param_values" for x in ast.walk(n))
+            if pops and restores:
+                loops12.append(n)
+    ok12 = bool(snap12) or bool(loops12)
+    rep.check(ok12, "C15-R12", "lower_function_call_inline unbinds the call's parameters", "restore-or-pop loop over the bound names" if loops12 else ("snapshot assignment" if snap12 else
+              "the bound names are never removed (only previous values are written back): after `abs(p)` the name x stays bound to p, and a later `Signal q = x * x;` of the caller reads p"), inl.loc(bind12[0]))
+
+    # ---------------- R13 --------------------------------------------------------------
+    _borrow15(repo, rep, "C12", "C12-R7", "C15-R13", "`e = make()` binds e to the entity the call returned, at top level and inside function or loop bodies alike: the returned-entity channel is "
+              "reset before the call, read after it, and its content is bound without consulting the analyzer's (top-level only) symbol table", floor=4)
